@@ -65,6 +65,12 @@ pub fn run_fault_kind(tr: &mut Trace, c: &Conc, t: i32, hist: &str, syms: &Syms,
     target.set_fault(Some(k), mode == "persistent", partial);
     target.set_interrupted(interrupted);
     target.set_zero_mode(mode == "zero");
+    if mode == "flushes" {
+        // every flush of BOTH destinations fails, nothing else does
+        target.set_fault(None, false, 0);
+        shp.set_fail_flushes(true);
+        shx.set_fail_flushes(true);
+    }
     let mut w = Some(ShapeWriter::with_shx(shp.clone(), shx.clone()));
     let mut accepted: Vec<Shape> = vec![];
     let fired_total = |a: &LogDest, b: &LogDest| a.faults_fired() + b.faults_fired();
@@ -179,6 +185,50 @@ pub fn run(a: &Args) {
                 cases += 1;
             }
         }
+    }
+    // long exports on destinations whose flush fails (and nothing else).  Thousands of writes through the byte-level
+    // writer model would cost TLC minutes, so this run crosses as ONE event of counts, validated by arithmetic
+    // (Trace_Writer!TLongFlush): a write during which a flush failed must have returned that error; finalize
+    // reports the failure and succeeds once the destination works; lengths and sampled index entries are exact.
+    for (j, n) in a.get("longflush", "1030,4100").split(',').filter_map(|x| x.parse::<usize>().ok()).enumerate() {
+        let t = [1, 21, 11][(j + seed as usize) % 3];
+        let c = &concs[j % chunks];
+        let syms = random_syms(&mut r, t, other_type(t, 0));
+        let sa = build(c, &syms.a);
+        let (shp, shx) = (LogDest::new(), LogDest::new());
+        shp.set_fail_flushes(true);
+        shx.set_fail_flushes(true);
+        let fired_total = |a: &LogDest, b: &LogDest| a.faults_fired() + b.faults_fired();
+        let mut w = ShapeWriter::with_shx(shp.clone(), shx.clone());
+        let mut bad: Vec<Value> = vec![];
+        let mut nok = 0usize;
+        for k in 1..=n {
+            let f0 = fired_total(&shp, &shx);
+            let res = res_of(guarded(|| with_inner!(&sa, v => w.write_shape(v), Ok(()))));
+            let fired = fired_total(&shp, &shx) > f0;
+            if res == "ok" { nok += 1; }
+            if (fired || res != "ok") && bad.len() < 20 {
+                bad.push(json!({"i": k, "res": res, "fired": fired}));
+            }
+        }
+        let f0 = fired_total(&shp, &shx);
+        let r1 = res_of(guarded(|| w.finalize()));
+        let fin1 = json!({"res": r1, "fired": fired_total(&shp, &shx) > f0});
+        shp.heal();
+        shx.heal();
+        let f0 = fired_total(&shp, &shx);
+        let r2 = res_of(guarded(|| w.finalize()));
+        let fin2 = json!({"res": r2, "fired": fired_total(&shp, &shx) > f0});
+        drop(w);
+        let (b, x) = (shp.bytes(), shx.bytes());
+        let be = |v: &[u8], o: usize| if o + 4 <= v.len() { i32::from_be_bytes([v[o], v[o + 1], v[o + 2], v[o + 3]]) } else { -1 };
+        let words = (b.len().saturating_sub(100) / n.max(1)).saturating_sub(8) / 2;
+        let samples: Vec<Value> = [1usize, 2, 1024, 1025, 4096, 4097, n].iter().filter(|k| **k <= n)
+            .map(|k| json!([k, be(&x, 100 + 8 * (k - 1)), be(&x, 104 + 8 * (k - 1))])).collect();
+        traces[j % chunks].run(json!({"ev": "longflush", "t": t, "n": n, "w": words, "nOk": nok, "bad": bad, "fin1": fin1, "fin2": fin2,
+            "shpLen": b.len(), "declared": be(&b, 24), "shxLen": x.len(), "shxDeclared": be(&x, 24), "entries": samples,
+            "flushedShp": shp.is_flushed(), "flushedShx": shx.is_flushed()}));
+        cases += 1;
     }
     let mut files = vec![];
     let mut lines = 0;
